@@ -45,7 +45,7 @@ def section9() -> str:
 
 {len(rows)} entries are repaired in `/repo` by minimal unguarded `fix:` commits (listed under `fixed` in
 `known_findings.json`; this table is generated from it by `tools/gen_design_tables.py`). The repository's test suite
-was re-run serially on the repaired tree: the same 14 tests fail as on the pinned tree in this sandbox (13 of the
+was re-run serially on the repaired tree (last on /repo HEAD 081827d, 7104 passed): the same 14 tests fail as on the pinned tree in this sandbox (13 of the
 baseline's always-failing tests plus one image comparison that depends on the environment).
 
 {table}
